@@ -72,7 +72,7 @@ theorem parseR_facts {dec : Dec} {ctx : Ctx} {data : Bytes} {p : Packet} {c : Op
     match p.header with
     | .v3 _ => c = none ∧ valid = true
     | .v4 _ => True
-    | .v5 _ => data.length % 4 = 0 := by
+    | .v5 _ => data.length % 4 = 0 ∧ (valid = true → draftIdOf p.ef = some draftVersion) := by
   generalize hL : data.length = L
   unfold parseR at h
   split at h
@@ -127,10 +127,7 @@ theorem parseR_facts {dec : Dec} {ctx : Ctx} {data : Bytes} {p : Packet} {c : Op
             · rename_i y hy
               obtain ⟨p', c', v'⟩ := y
               simp only at h
-              have key : (match p'.header with
-                  | .v3 _ => c' = none ∧ v' = true
-                  | .v4 _ => True
-                  | .v5 _ => L % 4 = 0) := by
+              have key : (∃ hh, p'.header = .v5 hh) ∧ L % 4 = 0 := by
                 unfold parseEF at hy
                 simp only [bind, Except.bind, pure, Except.pure] at hy
                 split at hy
@@ -142,14 +139,19 @@ theorem parseR_facts {dec : Dec} {ctx : Ctx} {data : Bytes} {p : Packet} {c : Op
                     simp only [Except.ok.injEq, Prod.mk.injEq] at hy
                     obtain ⟨hp, _, _⟩ := hy
                     subst hp
-                    rw [(constructPacket_fields hp'').1]
                     obtain ⟨h1, h2⟩ := efDeserialize_v5_len hr
-                    show L % 4 = 0
-                    omega
+                    exact ⟨⟨_, (constructPacket_fields hp'').1⟩, by omega⟩
+              obtain ⟨⟨hh, hhdr⟩, hlen⟩ := key
               split at h
-              · cases h; exact key
+              · rename_i hnv
+                cases h
+                rw [hhdr]
+                exact ⟨hlen, fun hv => absurd hv hnv⟩
               · split at h
-                · cases h; exact key
+                · rename_i hdr
+                  cases h
+                  rw [hhdr]
+                  exact ⟨hlen, fun _ => hdr⟩
                 · cases h
         · cases h
 
